@@ -218,7 +218,7 @@ func c10Run(c c10Case) Verdict {
 	}
 	_, fin := w.Finish()
 	if !fin {
-		return Verdict{Inconclusive: "watchdog while finishing"}
+		return finishFail(w)
 	}
 	if p := r.Log.Panicked(); p != "" {
 		return failf("panic", "server logged a panic: %s", p)
